@@ -132,6 +132,8 @@ EXPECTED_RESULT_TYPE = {
     "datetime-": "timestamp", "pd-timestamp": "timestamp", "list": "list_result", "dict": "dictionary", "arr-bool": "array_boolean",
     "arr-int8": "array_int8", "arr-int16": "array_int16", "arr-int32": "array_int32", "arr-int64": "array_int64",
     "arr-float32": "array_float32", "arr-float64": "array_float64", "arr-empty": "array_float64", "arr-2d": "array_int64",
+    "arr-0d": "array_int64", "arr-0d-float": "array_float64", "arr-3d": "array_int32", "arr-transposed": "array_int64",
+    "arr-strided": "array_int16", "arr-fortran": "array_float32", "arr-1x0": "array_int8",
     "index": "index", "series": "series", "frame": "data_frame", "partition": "partition",
 }
 
@@ -243,7 +245,7 @@ def main(chk, replay=None):
     chk.rule = ("generated call-DAG programs (2-6 functions; nested, repeated, batched, failing with rebuildable / opaque / "
                 "non-memoized exceptions, caught or propagating; context overrides, ignore_result, prevent_further_calls, "
                 "hidden dynamic calls, resources) x histories of call / immediate repeat / call_batch / forget+call / "
-                "memento x {memory, fs, fs+cache}; plus 37 result values of every supported type x 4 backends. "
+                "memento x {memory, fs, fs+cache}; plus 44 result values of every supported type x 4 backends. "
                 "Distinct = distinct (program, backend, history); non-trivial = program has >= 1 nested call.")
     proof_ok = chk.build_and_audit()
     # translator part: finite decision tables regenerated from the running code, theorems over them re-checked
